@@ -42,6 +42,9 @@ var vpTermPatterns = [][]int{nil, {0}, {0, 1}, {2}, {1, 2}}
 // C08: dictionaries of built and merged segments: ranges, automata, counts, Contains, unknown fields/terms.
 func vpH_C08_dict() {
 	names := []string{"a", "b", "c"}
+	if vpThorough() {
+		names = []string{"a", "b", "c", "x\x00"} // a fourth term that sorts between "x" and "xa"
+	}
 	docTerms := make([][]*vpTerm, 3)
 	add := func(d int, t string, freq int) {
 		docTerms[d] = append(docTerms[d], &vpTerm{term: []byte(t), freq: freq})
@@ -148,7 +151,7 @@ func vpH_C08_dict() {
 		}
 	}
 	// Contains / PostingsList agree with the model for present and absent terms
-	for _, t := range []string{"", "a", "b", "c", "x", "xa", "y\xfe", "zz"} {
+	for _, t := range []string{"", "a", "b", "c", "x", "x\x00", "xa", "y\xfe", "zz"} {
 		n := uint64(len(exp.post["f"][t]))
 		ok, err := d.Contains([]byte(t))
 		vpAssert(err == nil && ok == (n > 0), "Contains agrees with the model")
